@@ -21,7 +21,7 @@ RULE = ('One case = a random sequence of 30-60 clock operations (start, stop, sp
         'an assignment while running and a rejected assignment.')
 ASSUMPTIONS = ['real-time values, speeds and assigned values are dyadic rationals, so the clock\'s float arithmetic is exact in mode (i)',
                'mode (ii): the value is only determined up to the real time spent inside an operation']
-REQUIRED_COUNTERS = ['followed_clock_replaced', 'readings_exact', 'readings_bounded', 'rejected_assignments', 'accepted_assignments_running',
+REQUIRED_COUNTERS = ['chained_interpreter_steps', 'followed_clock_replaced', 'readings_exact', 'readings_bounded', 'rejected_assignments', 'accepted_assignments_running',
                      'speed_changes_running', 'stopped_stillness_checks', 'synchronized_checks']
 
 
@@ -219,6 +219,10 @@ def sync_case(acc, rnd):
     it = Interpreter(sc)
     syn = SynchronizedClock(it)
     last_step_time = it.time
+    # a chain: it2's own clock is synchronised with `it`, and a third clock follows it2
+    it2 = Interpreter(sc, clock=SynchronizedClock(it))
+    syn2 = SynchronizedClock(it2)
+    last2 = it2.time
     for k in range(rnd.randint(10, 30)):
         op = rnd.choice(('clock', 'queue', 'step', 'step', 'newclock'))
         if op == 'newclock':
@@ -239,7 +243,17 @@ def sync_case(acc, rnd):
             if step is not None and step.time != t0:
                 acc.violation('C14:synchronized-clock', 'step time %r, clock %r' % (step.time, t0), {})
                 return
+        if rnd.random() < 0.3:
+            t2 = it2.clock.time          # = time of the last step of `it`
+            it2.queue('go')
+            it2.execute_once()
+            last2 = t2
+            acc.count('chained_interpreter_steps')
         acc.count('synchronized_checks')
+        if syn2.time != last2:
+            acc.violation('C14:synchronized-clock', 'a clock following interpreter M (whose own clock follows R) shows %r; the last '
+                          'step of M was at %r (R is at %r)' % (syn2.time, last2, it.time), {})
+            return
         if syn.time != last_step_time:
             acc.violation('C14:synchronized-clock', 'SynchronizedClock shows %r, the last step of the followed interpreter was at %r '
                           '(after %s)' % (syn.time, last_step_time, op), {})
